@@ -16,6 +16,10 @@ pub enum S {
     DecJson(Ty, String),
     /// history: a serialization whose output sink fails after `cap` bytes, then an ordinary round trip of the second value
     AfterFail(V, usize, V),
+    /// the canonical text of a value, decoded without ever having been encoded by this process or thread first
+    DecCanon(V),
+    /// raw bytes handed to the visitors (formats that deliver text as bytes): valid text, cut or damaged UTF-8
+    DecBytes(Ty, Vec<u8>),
     /// history: a serialization whose writer panics (caller code; the panic is contained), then an ordinary round trip
     AfterPanic(V, V),
 }
@@ -63,6 +67,8 @@ impl Case for S {
             S::DecBin(ty, raw) => json!({"kind": "decode-binary-integer", "type": ty.name(), "raw": raw}),
             S::DecBinBytes(ty, b) => json!({"kind": "decode-binary-bytes", "type": ty.name(), "bytes": b}),
             S::DecJson(ty, t) => json!({"kind": "decode-json", "type": ty.name(), "json": t}),
+            S::DecCanon(v) => json!({"kind": "decode-canonical-text", "value": v.to_json(), "show": v.show()}),
+            S::DecBytes(ty, b) => json!({"kind": "decode-bytes-visitor", "type": ty.name(), "bytes": b}),
             S::AfterPanic(a, b) => json!({"kind": "roundtrip-after-panicking-writer", "first": a.to_json(), "first_show": a.show(), "value": b.to_json(), "show": b.show()}),
             S::AfterFail(a, cap, b) => json!({"kind": "roundtrip-after-failed-write", "first": a.to_json(), "first_show": a.show(), "sink_capacity": cap, "value": b.to_json(), "show": b.show()}),
         }
@@ -142,6 +148,42 @@ fn raw_in_range(ty: Ty, raw: i64) -> bool {
 pub fn check(st: &mut Stats, c: &S) {
     crate::props::c05::pin_clock();
     match c {
+        S::DecCanon(v) => {
+            let ty = v.ty();
+            let toks = tokenize(layout(ty).as_bytes()).expect("layout");
+            let text = format!("\"{}\"", render(v, &toks).expect("layout applies"));
+            st.op(Op::S_json_de);
+            match (de_json(ty, &text), v.to_lib()) {
+                (Ok(back), Some(lv)) => {
+                    obs_lv(st, Op::S_json_de, &back);
+                    if back.raw() != lv.raw() {
+                        st.fail(format!("C15/{}/json/canonical-text-decodes-to-another-value", ty.name()), format!("{} -> {}", text, back.to_v().show()));
+                    }
+                }
+                (Err(e), Some(_)) => st.fail(format!("C15/{}/json/canonical-text-rejected", ty.name()), format!("{} -> {}", text, e)),
+                _ => st.skipped += 1,
+            }
+        }
+        S::DecBytes(ty, b) => {
+            use serde::de::value::{BytesDeserializer, Error as VE};
+            use serde::Deserialize;
+            st.op(Op::S_json_de);
+            let de = || BytesDeserializer::<VE>::new(b);
+            let r: Result<LV, VE> = match ty {
+                Ty::Date => Date::deserialize(de()).map(LV::Date),
+                Ty::Time => Time::deserialize(de()).map(LV::Time),
+                Ty::Ts => Timestamp::deserialize(de()).map(LV::Ts),
+                Ty::Ora => OracleDate::deserialize(de()).map(LV::Ora),
+                Ty::YM => IntervalYM::deserialize(de()).map(LV::YM),
+                Ty::DT => IntervalDT::deserialize(de()).map(LV::DT),
+            };
+            if let Ok(lv) = r {
+                obs_lv(st, Op::S_json_de, &lv);
+                if !lv_in_range(&lv) {
+                    st.fail("C15/decode/out-of-range-value", format!("{} bytes {:?} decoded to raw {}", ty.name(), b, lv.raw()));
+                }
+            }
+        }
         S::AfterPanic(a, b) => {
             if let Some(lv) = a.to_lib() {
                 st.op(Op::S_json_ser);
@@ -445,6 +487,65 @@ pub fn run(ctx: &Ctx, st: &mut Stats) {
             }
         }
     });
+    // canonical texts decoded cold (fresh threads: no encode before), and as ordinary cases
+    cold_threads(st, "history: canonical text decoded as the first call of a fresh thread", {
+        let mut v = vec![];
+        for ty in ALL_TY {
+            for x in boundary_values(ty).into_iter().take(6) {
+                v.push(S::DecCanon(x));
+            }
+        }
+        v
+    }, check);
+    let ncan = ctx.tier.pick(60, 200_000, 2_000_000);
+    ctx.par(st, "canonical texts of random values decoded (no encode first)", false, 0, ncan, |st, i, rng| {
+        let v = rand_value(rng, ALL_TY[(i % 6) as usize]);
+        st.eval_h(hash64(v.show().as_bytes()), &S::DecCanon(v), check);
+    });
+    // long payloads with a multi-byte character at every byte offset (error paths that echo or cap the payload)
+    let noff = ctx.tier.pick(12, 400, 1200);
+    ctx.par(st, "decode: valid prefix + long tail with a multi-byte character at every offset", true, 0, noff * 6, |st, i, _| {
+        let ty = ALL_TY[(i % 6) as usize];
+        let off = (i / 6) as usize;
+        for (prefix, ch) in [("2020", 'é'), ("2020-01-01 00:00:00", '日'), ("+1 ", '\u{1F600}'), ("", 'é')] {
+            for fill in [' ', 'x', '-'] {
+                let mut t = String::with_capacity(off + 24);
+                t.push_str(prefix);
+                while t.len() < off {
+                    t.push(fill);
+                }
+                t.push(ch);
+                t.push_str("-01-01");
+                st.eval(&S::DecJson(ty, serde_json::to_string(&t).expect("json")), check);
+            }
+        }
+    });
+    // text delivered as bytes: valid, cut inside a multi-byte character, damaged
+    let nby = ctx.tier.pick(60, 100_000, 1_000_000);
+    ctx.par(st, "decode: byte payloads through the visitors (valid text, cut / damaged UTF-8)", false, 0, nby, |st, i, rng| {
+        let ty = ALL_TY[(i % 6) as usize];
+        let v = rand_value(rng, ty);
+        let toks = tokenize(layout(ty).as_bytes()).expect("layout");
+        let mut b = render(&v, &toks).expect("layout applies").into_bytes();
+        match rng.below(6) {
+            0 => {}
+            1 => b.extend_from_slice(&"é".as_bytes()[..1]),
+            2 => b.extend_from_slice(&"日".as_bytes()[..rng.range_i64(1, 2) as usize]),
+            3 => b.extend_from_slice(&"\u{1F600}".as_bytes()[..rng.range_i64(1, 3) as usize]),
+            4 => {
+                let k = rng.below(b.len().max(1) as u64) as usize;
+                if k < b.len() {
+                    b[k] = rng.next() as u8;
+                }
+            }
+            _ => {
+                let k = rng.below(b.len() as u64 + 1) as usize;
+                b.truncate(k);
+                b.extend_from_slice(&[0xE2, 0x82]);
+            }
+        }
+        st.eval_h(mix(hash64(&b), ty as u64), &S::DecBytes(ty, b), check);
+    });
     // decoding raw integers at and around the limits and at the integer extremes
     st.stratum("decode: raw integers at limits +-1, extremes", true);
     for ty in ALL_TY {
@@ -557,6 +658,11 @@ pub fn replay(v: &Value, st: &mut Stats) -> bool {
         "decode-binary-integer" => S::DecBin(ty.unwrap_or(Ty::Date), ji64(v, "raw")),
         "decode-binary-bytes" => S::DecBinBytes(ty.unwrap_or(Ty::Date), v.get("bytes").and_then(|b| b.as_array()).map(|a| a.iter().map(|x| x.as_u64().unwrap_or(0) as u8).collect()).unwrap_or_default()),
         "decode-json" => S::DecJson(ty.unwrap_or(Ty::Date), jstr(v, "json")),
+        "decode-canonical-text" => match v.get("value").and_then(V::from_json) {
+            Some(x) => S::DecCanon(x),
+            None => return false,
+        },
+        "decode-bytes-visitor" => S::DecBytes(ty.unwrap_or(Ty::Date), v.get("bytes").and_then(|b| b.as_array()).map(|a| a.iter().map(|x| x.as_u64().unwrap_or(0) as u8).collect()).unwrap_or_default()),
         "roundtrip-after-panicking-writer" => match (v.get("first").and_then(V::from_json), v.get("value").and_then(V::from_json)) {
             (Some(a), Some(b)) => S::AfterPanic(a, b),
             _ => return false,
